@@ -178,6 +178,11 @@ def gate_from_deadlock(res, keys):
                 held.remove(name)
         want = toks[pc - 1].split(":")[1]
         blocked.append({"path": keys[pi - 1], "held": held, "want": want})
+    if len(blocked) == 2:
+        # a lock that one goroutine read-locks twice, with a writer arriving in between (the writer holds nothing)
+        for r, w in ((blocked[0], blocked[1]), (blocked[1], blocked[0])):
+            if not w["held"] and r["held"] and r["want"] == w["want"] and r["want"] in r["held"]:
+                return [r["want"], r["want"], "", w["want"]], json.dumps(blocked)
     if len(blocked) < 2 or not blocked[0]["held"] or not blocked[1]["held"]:
         return None, json.dumps(blocked)
     g = [blocked[0]["held"][-1], blocked[0]["want"], blocked[1]["held"][-1], blocked[1]["want"]]
